@@ -56,6 +56,7 @@ class Model:
         self.frags: Dict[Tuple[str, str], Dict[str, List[Dict[str, Any]]]] = {}
         self.by_marker: Dict[str, Tuple[Dict[str, Any], Optional[str]]] = {}
         self._mixed_parents: Dict[Tuple[str, str], set] = {}
+        self.kind_tag: Dict[int, str] = {}
         for c in world.get("containers", []):
             cf = (c["sn"], "CONTAINER")
             self._define([cf], c, None)
@@ -81,28 +82,30 @@ class Model:
         if "m" in o:
             self.by_marker[o["m"]] = (o, layer)
 
-    def _walk(self, node: Any, frags: List[Tuple[str, str]], layer: Optional[str]) -> None:
+    def _walk(self, node: Any, frags: List[Tuple[str, str]], layer: Optional[str], key: str = "") -> None:
         """every dict below a layer / document that has an "id" is an identifiable object of that layer"""
         if isinstance(node, dict):
             for k, v in node.items():
                 if k == "layers":
                     continue
-                self._walk_child(v, frags, layer)
+                self._walk_child(v, frags, layer, k)
         elif isinstance(node, list):
             for v in node:
-                self._walk_child(v, frags, layer)
+                self._walk_child(v, frags, layer, key)
 
-    def _walk_child(self, v: Any, frags: List[Tuple[str, str]], layer: Optional[str]) -> None:
+    def _walk_child(self, v: Any, frags: List[Tuple[str, str]], layer: Optional[str], key: str = "") -> None:
         if isinstance(v, dict):
             if _is_ref(v):
                 return
+            # the kind of an object: its explicit kind / parameter type, else the collection it is listed in
+            self.kind_tag[id(v)] = v.get("k") or v.get("t") or key
             if "id" in v:
                 self._define(frags, v, layer)
             elif "m" in v:
                 self.by_marker[v["m"]] = (v, layer)
-            self._walk(v, frags, layer)
+            self._walk(v, frags, layer, key)
         elif isinstance(v, list):
-            self._walk(v, frags, layer)
+            self._walk(v, frags, layer, key)
 
     def layer_frags(self, layer_sn: str) -> List[Tuple[str, str]]:
         """innermost first"""
@@ -356,7 +359,15 @@ class Model:
                 _, bad = self.imported_layers(owner[1])
                 if bad is not None and bad[0] == "FAIL":
                     return bad
-            return self.idref(owner, probe["ref"])
+            res = self.idref(owner, probe["ref"])
+            if res[0] == "BIND" and probe.get("accept"):
+                # a typed reference: the nearest fragment that holds the ID decides; an object of another kind there
+                # is not the object the reference names -> the reference cannot be resolved
+                o = self.by_marker[res[1]][0]
+                tag = self.kind_tag.get(id(o), "")
+                if tag not in probe["accept"]:
+                    return ("FAIL", f"the object carrying the ID in the deciding fragment is a {tag}, expected one of {sorted(probe['accept'])}")
+            return res
         return self.snref(probe["owner"], probe)
 
     def expect_retargeted(self, probe: Dict[str, Any], target: str) -> Outcome:
